@@ -38,7 +38,13 @@ def main():
                 out[name] = {"applies": False}
                 print(name, "does not apply to the current tree")
                 continue
-        sh("git", "-C", REPO, "apply", patch)
+        if sh("git", "-C", REPO, "apply", patch).returncode != 0:
+            sh("git", "-C", REPO, "apply", "-3", patch)
+            sh("git", "-C", REPO, "reset", "-q")   # -3 stages the result; keep it in the working tree only
+        if not sh("git", "-C", REPO, "status", "--porcelain").stdout.strip():
+            out[name] = {"applies": False}
+            print(name, "does not apply to the current tree")
+            continue
         res = {"applies": True, "checks": {}}
         try:
             props = [meta["property"]]
